@@ -59,6 +59,11 @@ func (g *gen15) valueTpl(sc scope, allowRef bool) Tpl {
 	if g.r.Intn(3) == 0 {
 		t = append(t, Part{K: PLit, S: g.pick([]string{"z", "-s"})})
 	}
+	if g.r.Intn(6) == 0 {
+		// a utility function that looks its variables up by NAME when it is called (no prefixed variable is
+		// ever defined here, so it yields the plain one, or nothing if that is blank)
+		t = append(t, Part{K: PLit, S: "+"}, Part{K: PPrefOver, S: g.pick(gNames), Lit: "pfx"})
+	}
 	return t
 }
 
